@@ -99,6 +99,7 @@ func (e *Engine) runUnit(u *Unit) {
 			}
 		}
 	}()
+	e.ranUnits[u.Name] = true
 	if u.Lemma != nil {
 		e.runLemmaUnit(u)
 	} else {
